@@ -409,12 +409,16 @@ EncLegacyText(c, m, f) ==
      ELSE IF rest = Ctrl + Alt /\ ~sh /\ CtrlByte(c) # -1 THEN Enc("escc0", CtrlByte(c), <<>>, <<>>, 0)
      ELSE NoEnc
 
-\* legacy report of a chord on a functional key
+\* legacy report of a chord on a functional key (keypad keys: application keypad mode)
+LegacyKeypadFinal(name) ==
+  IF \E f \in KeypadFinals : KeypadKey(f) = name THEN CHOOSE f \in KeypadFinals : KeypadKey(f) = name ELSE 0
 EncLegacyFK(name, m) ==
   LET fin == LegacyLetterFinal(name)
       n == LegacyTildeNum(name)
+      kp == LegacyKeypadFinal(name)
   IN IF fin # 0 THEN (IF m = 0 THEN Enc("csi", 0, <<>>, <<>>, fin) ELSE Enc("csi", 0, <<>>, <<<<1>>, <<m + 1>>>>, fin))
      ELSE IF n # 0 THEN (IF m = 0 THEN Enc("csi", 0, <<>>, <<<<n>>>>, 126) ELSE Enc("csi", 0, <<>>, <<<<n>>, <<m + 1>>>>, 126))
+     ELSE IF kp # 0 /\ m = 0 THEN Enc("ss3", kp, <<>>, <<>>, 0)
      ELSE NoEnc
 
 (* kitty report.  form = [alt, typ, txt] BOOLEANs: report alternate keys, *)
